@@ -29,15 +29,20 @@ THEOREMS = ['C07_init_bk_inv_louvain', 'C07_init_bk_inv_louvain_sign', 'C07_init
             'C07_finetune_und_auto_never_worse', 'C07_finetune_dir_auto_never_worse', 'C07_finetune_sign_auto_never_worse',
             'C07_louvain_und_auto_monotone', 'C07_louvain_und_sign_auto_monotone', 'C07_community_louvain_auto_monotone',
             'C07_finetune_und_restart', 'C07_finetune_dir_restart', 'C07_finetune_sign_restart',
-            'C07_community_louvain_restart']
-RULE = ('same generator as C02 (networks n=3..9, integer weights 0..4, signed/binary/directed variants, gamma in '
-        '{1, 3/4, 5/4, 13/10}, all qtypes/objectives, random / one-block / shuffled-singleton / non-contiguous initial '
-        'partitions); every accepted move of every run is checked; non-trivial = at least one accepted move; distinct by '
-        'hash of (routine, matrix, gamma, type, initial partition, seed)')
-ASSUMES = ['weights are small integers: node-to-module sums are exact in binary64 and compared exactly (1e-9 tolerance '
-           'for the non-integer sums of community_louvain); gains are compared with tolerance 1e-9',
-           'which move is taken is decided on floats by the implementation (argmax, > 1e-10) and replayed by the model; '
-           'the theorems quantify over ALL move sequences whose exact gain is positive',
+            'C07_community_louvain_restart', 'C07_louvain_und_hierarchy_strict']
+RULE = ('same generator as C02 (harness/modq.py: networks n=3..9 mostly, n in {1,2} and 10..16 in ~18 %; weights: integers 1..4, '
+        'dyadic k/4, integers up to 2^15, whole matrix scaled by 2^-26..2^-38 (gains near the absolute 1e-10 threshold), heavy '
+        'self-loops; signed/binary/directed variants; gamma in {1, 3/4, 5/4, 13/10} or {0, 1/2, 7/8, 3/2, 19/10}; all '
+        'qtypes/objectives; random / one-block / shuffled-singleton / non-contiguous initial partitions, as ndarray or list; float '
+        'or integer dtype; seed an int (recorded stream) or None; a 44-node increasing-weight path needing 23..32 sweeps); every '
+        'accepted move of every run is checked and the decision rule is re-run on the recorded permutations; non-trivial = at '
+        'least one accepted move; distinct by hash of (routine, matrix, gamma, type, initial partition, seed)')
+ASSUMES = ['weights are integers or dyadic rationals (exact in binary64, total weight < 2^23): node-to-module sums are exact and '
+           'compared exactly (1e-9 tolerance for the non-integer sums of community_louvain); gains are compared with tolerance '
+           '1e-9 relative + 1e-13 * total weight absolute (a gain is a difference of terms of that size)',
+           'which move is taken is decided by the model\'s exact decision rule on the recorded permutations and must equal the '
+           'implementation\'s float decision, except where the exact decision is within 1e-9 * gain scale of flipping (threshold '
+           'or runner-up): such runs (counted select:ambiguous) fall back to the replay of the accepted moves',
            'domain: symmetric W for the _und routines and for the objective matrix of community_louvain (the code '
            'symmetrises it), positive total weight']
 TRUSTED = ['hook events of bct.utils._verif (BCTPY_VERIF=1) are trusted to be the state of the run',
@@ -62,6 +67,12 @@ def aggregate(M, full, k):
 
 def objective_matrix(case):
     """community_louvain's B for the built-in objectives, from the definition (exact)"""
+    if '_B' not in case:
+        case['_B'] = _objective_matrix(case)
+    return case['_B']
+
+
+def _objective_matrix(case):
     W, g, kind = case['_W'], case['_g'], case['kind']
     n = len(W)
     s = sum(map(sum, W))
@@ -118,7 +129,8 @@ def expected_channels(case, prev_full, k, m):
 
 def run(ctx):
     lines, pend = [], []
-    per = ctx.scale(70, 2000)
+    per = ctx.scale(70, 800)
+    ctx.big_sparse = True      # modq.make_case queues one 131..140-node case per Louvain routine (direct oracle only)
     for fn in ROUTINES:
         R = ROUTINES[fn]
         det = fn in DET
@@ -220,6 +232,8 @@ def run(ctx):
                     ctx.fail(fn + ':terminates', 'restart: no result within 20 s', pc)
                 except Exception as e:
                     ctx.fail(fn + ':raises', 'restart raised %r' % (e,), pc)
+            if case.get('_nomodel'):
+                continue
             lines.append(modq.model_line(case, levels)); pend.append((case, ci, q, levels))
             if fn != 'modularity_louvain_dir' and perms is not None:
                 # the DECISION RULE itself (dq vector, dq[ma]=0, first-max argmax, > 1e-10, sweeps until no move, `it` bound) run
